@@ -253,32 +253,52 @@ func runC02Case(t *testing.T, r *Rec, nops int) {
 			before := c.atts()
 			supBefore := e.in.BankKeeper.GetSupply(e.ctx, e.denoms[0]).Amount
 			lastBefore, _ := e.raw.GetLastObservedSkywayNonce(e.ctx, skyChain)
-			// collaborator fault: in one tally out of three the chain-info lookup behind the LAST
-			// observation event of this block fails (counted on a throw-away branch first). The claim
-			// is then already applied and nothing of the tally is left to do, so the state must be
-			// what it is without the fault - an observed claim whose effect is missing shows up in
-			// `applied_exactly_once` and in the state line.
+			// collaborator fault: in one tally out of three the chain-info lookup behind ONE of the
+			// observation events of this block fails (their number is counted on a throw-away branch
+			// first). The claim is then already applied; TryAttestation returns the error and the rest of
+			// this chain's tally is skipped (model: `eventFailed`). An observed claim whose effect is
+			// missing shows up in `applied_exactly_once` and in the state line.
 			e.fault.Reset("", 0)
+			faulted := "-"
 			if r.Rng.Intn(3) == 0 {
 				cctx, _ := e.ctx.CacheContext()
 				skyway.EndBlocker(cctx, e.k, e.cc)
 				if n := e.fault.Counts["evm.chaininfo"]; n > 0 {
-					e.fault.Reset("evm.chaininfo", n)
-					r.Stat("tally.fault_at_last_observation_event")
+					e.fault.Reset("evm.chaininfo", 1+r.Rng.Intn(n))
+					r.Stat("tally.fault_at_observation_event")
 				} else {
 					e.fault.Reset("", 0)
 				}
 			}
 			e.endBlock()
-			if e.fault.Target != "" && !e.fault.Fired {
-				t.Fatalf("C02: the planned fault did not fire (calls %v)", e.fault.Counts)
+			if e.fault.Target != "" {
+				if !e.fault.Fired {
+					t.Fatalf("C02: the planned fault did not fire (calls %v)", e.fault.Counts)
+				}
+				// the tally stopped right after the observation whose event failed: it is the newly
+				// observed attestation with the highest nonce
+				wasObs := map[string]bool{}
+				for _, a := range before {
+					wasObs[fmt.Sprintf("%d/%s", a.nonce, a.hash)] = a.observed
+				}
+				var hi *c02Att
+				for _, a := range c.atts() {
+					a := a
+					if a.observed && !wasObs[fmt.Sprintf("%d/%s", a.nonce, a.hash)] && (hi == nil || a.nonce > hi.nonce) {
+						hi = &a
+					}
+				}
+				if hi == nil {
+					t.Fatalf("C02: an observation event failed but nothing was observed")
+				}
+				faulted = fmt.Sprintf("%d:%s", hi.nonce, hi.hash)
 			}
 			e.fault.Reset("", 0)
 			ps := make([]string, nv)
 			for j := range powers {
 				ps[j] = fmt.Sprintf("%d:%d", j+1, powers[j])
 			}
-			op := fmt.Sprintf("%s %s %d", kind, strings.Join(ps, ","), total)
+			op := fmt.Sprintf("%s %s %d %s", kind, strings.Join(ps, ","), total, faulted)
 			c.emit(op, c.state())
 			r.Stat("op." + kind)
 			// ---- monitors ----
